@@ -131,6 +131,16 @@ def run_case(kind, p):
     back = grm.get_indices(coords, zero, a, b)
     if np.abs(back - flat).max(initial=0) > 1e-6:
         msgs.append(f"get_indices(calc_coords(idx)) differs from idx by {np.abs(back - flat).max()}")
+    # the same with lattice vectors kept as integers (tuples / integer arrays) when they are integral: fractional indices stay
+    # fractional
+    if np.all(a == np.round(a)) and np.all(b == np.round(b)) and np.all(zero == np.round(zero)):
+        fi = flat + 0.25
+        for az, bz in ((tuple(int(v) for v in a), tuple(int(v) for v in b)), (a.astype(np.int64), b.astype(np.int64))):
+            ci = utils.calc_coords(zero, az, bz, fi)
+            wi = np.array([zero + i * a + j * b for i, j in fi]).reshape(-1, 2)
+            if np.abs(ci - wi).max(initial=0) > 1e-9:
+                msgs.append(f"calc_coords with integer lattice vectors {az}, {bz} and fractional indices != zero + i*a + j*b")
+                break
     pts = coords + 0.37
     again = utils.calc_coords(zero, a, b, grm.get_indices(pts, zero, a, b))
     if np.abs(again - pts).max(initial=0) > 1e-6:
@@ -206,6 +216,8 @@ def search(ctx, boost=1, focus=()):
     n = (600 if ctx.tier == "thorough" else 150) * boost
     for k in range(n):
         zero, a, b = lattice(rng, dyadic=(k % 2 == 0))
+        if (k // 4) % 3 == 2:      # an integer lattice
+            zero, a, b = np.round(zero), np.round(a), np.round(b)
         layout = ("mgrid", "list", "list", "list2")[k % 4]
         idx, flat = gen_indices(rng, "list" if layout == "list2" else layout, tiny=True)
         if layout == "list2":
